@@ -229,6 +229,12 @@ def run(prop, tier):
         if not tm.ok:
             raise vlib.ToolError("TLC reports %s on %s (specification error):\n%s" % (tm.violated, tcfg, tm.output[-2000:]))
         scheds = sorted({json.dumps(b["sched"], sort_keys=True) for b in tm.marked["REPLAY"]})
+        # an idle client inside the login phase (no keep-alive, no disconnect belongs there, however long it idles)
+        for frame in ("LoginStart", "EncryptionResponse"):
+            for secs in (17, 33, 49):
+                for lat in ([0, 0, 0], [0, 20, 0]):
+                    scheds.append(json.dumps({"auth": 0, "ackAt": 1, "infoAt": 1, "lat": lat, "policy": "prompt",
+                                              "preDelay": {"frame": frame, "secs": secs}}, sort_keys=True))
         tinp, toutp = os.path.join(wd, "timed_in.ndjson"), os.path.join(wd, "timed_obs.ndjson")
         vlib.write_ndjson(tinp, [{"sched": json.loads(x)} for x in scheds])
         vlib.run_bin(hx, ["conn-timed", "--in", tinp, "--out", toutp, "--seed", str(seed), "--threads", "12"], timeout=1800)
@@ -240,7 +246,7 @@ def run(prop, tier):
         for f in tt.marked["FAIL"]:
             o = tobs[f["line"] - 1]
             sc = o["sched"]
-            rep.violation("%s %s [timed: policy=%s auth=%s ack=%s info=%s lat=%s]" % (prop, "+".join(sorted(f["clauses"])), sc.get("policy"), sc.get("auth"), sc.get("ackAt"), sc.get("infoAt"), sc.get("lat")),
+            rep.violation("%s %s [timed: policy=%s auth=%s ack=%s info=%s lat=%s]" % (prop, "+".join(sorted(f["clauses"])), sc.get("policy"), sc.get("auth"), sc.get("ackAt"), sc.get("infoAt"), str(sc.get("lat")) + (" idle before %s for %ss" % (sc["preDelay"]["frame"], sc["preDelay"]["secs"]) if sc.get("preDelay") else "")),
                           {"failing_clauses": sorted(f["clauses"]), "schedule": sc, "observed": {k: o[k] for k in o if k != "hist"}, "seed": seed})
         states += tm.distinct + tt.distinct
         transitions += tm.generated + tt.generated
@@ -273,6 +279,22 @@ def run(prop, tier):
         states += b.distinct + bt.distinct
         transitions += b.generated + bt.generated
         extra_notes.append("MC_Builtins + Trace_Builtins: %d localization/status cases of the built-in adapters judged" % len(bobs))
+    if prop == "C01":
+        # the shipped authentication adapter itself: MojangAdapter against a loopback session server (hook PASSAGE_VERIF_SESSION_SERVER);
+        # an identity is reported as vouched for only if the answer carried it (Trace_SessionUrl, clause C01_IdentityOnlyFromReply)
+        import url_check
+        uwd = os.path.join(wd, "url")
+        os.makedirs(uwd, exist_ok=True)
+        umc, utr, ucases, uobs = url_check.collect("quick", uwd, seed)
+        for f in utr.marked["FAIL"]:
+            if "C01_IdentityOnlyFromReply" in f["clauses"]:
+                o = uobs[f["line"] - 1]
+                rep.violation("C01 C01_IdentityOnlyFromReply [session server answers '%s']" % o["vec"]["script"],
+                              {"failing_clauses": ["C01_IdentityOnlyFromReply"], "mock_reply_script": o["vec"]["script"], "profile_in_the_reply_if_any": {"id": o["vec"]["reply_id"], "name": o["vec"]["reply_name"]},
+                               "adapter_result": o["result"], "returned_profile": o["profile"], "seed": seed})
+        states += umc.distinct + utr.distinct
+        transitions += umc.generated + utr.generated
+        extra_notes.append("MojangAdapter against a loopback session server: %d calls (%d reply scripts) judged by Trace_SessionUrl!C01_IdentityOnlyFromReply" % (len(uobs), len({c["script"] for c in ucases})))
     rc = rep.finish()
     if drift:
         print("NOTE model-drift: %d of %d replays differ from the precise model Conn.tla (the property-level verdict above is what counts)" % (drift, len(observed)))
